@@ -39,6 +39,8 @@ def okOut : Out → Bool
   | .identClean _ delta => decide (delta = 0)
   | .identEnd _ delta fn glob cls lnum => decide (delta = 0 ∧ fn = -1 ∧ glob = -1 ∧ cls = -1 ∧ lnum = -1)
   | .localsEnd cur max lOff tOff => decide (cur = 0 ∧ max = 0 ∧ lOff = 0 ∧ tOff = 0)
+  | .scr _ tail size last _ _ => decide (2 ≤ last ∧ last ≤ tail ∧ tail ≤ size)
+  | .scrEnd last tail large => decide (last = 2 ∧ tail = 2 ∧ large = 0)
   | .crash _ => false
 
 def describe : Out → String
@@ -48,6 +50,8 @@ def describe : Out → String
   | .identClean n d => s!"ident-not-restored-by-cleanup {n} delta={d}"
   | .identEnd n d f g c l => s!"ident-not-restored {n} delta={d} fn={f} glob={g} cls={c} local={l}"
   | .localsEnd c m lo t => s!"locals-not-reset cur={c} max={m} name={lo} type={t}"
+  | .scr n t sz l _ _ => s!"scratchpad-cursor-outside-pad {n} tail={t} last={l} size={sz}"
+  | .scrEnd l t lg => s!"scratchpad-not-empty-after-compile last={l} tail={t} large={lg}"
   | .crash w => s!"crash {w}"
 
 /-- verdicts on structured events -/
